@@ -1215,9 +1215,11 @@ Section Ownership.
         forall i h, nth_error (model_params s) i = Some h ->
           (* a parameter without gradient keeps its handle and its node *)
           (grad_of s h = None -> nth_error (model_params s') i = Some h) /\
-          (* a parameter with a gradient is rebound to a fresh childless node without
-             closure that owns a fresh buffer: nothing of the previous iteration is held *)
+          (* a parameter with a gradient -- the first handle of its node in the list -- is
+             rebound to a fresh childless node without closure that owns a fresh buffer:
+             nothing of the previous iteration is held *)
           (forall p g, h_arr s h = Some p -> grad_of s h = Some g ->
+             ~ In (e_node h) (map e_node (firstn i (model_params s))) ->
              exists h' nd', nth_error (model_params s') i = Some h' /\
                length (st_nodes s) <= e_node h' /\
                nth_error (st_nodes s') (e_node h') = Some nd' /\
@@ -1232,7 +1234,7 @@ Section Ownership.
     rewrite Hparams. split; [exact Hlen |].
     intros i h Hi. split.
     - intro Hg. apply (Hfrozen i h Hi Hg).
-    - intros p g Hp Hg. destruct (Hunfrozen i h p g Hi Hp Hg) as (Hout & Hnode).
+    - intros p g Hp Hg Hfirst. destruct (Hunfrozen i h p g Hi Hp Hg Hfirst) as (Hout & Hnode).
       eexists. eexists. split; [exact Hout |]. simpl.
       split; [lia |]. split; [exact Hnode |]. simpl. repeat split.
   Qed.
